@@ -47,6 +47,17 @@ def gen_whole(rng, max_funcs=3):
                     lead = [rng.choice(list(fam)) for fam in GLEAD_FAMILIES if rng.random() < 0.35]
                     if lead:
                         f[1] += "~" + ",".join(map(str, lead))
+                # the clauses behind the initializer: section, partition, align (in the order of the grammar)
+                if rng.random() < 0.4:
+                    cl = []
+                    if rng.random() < 0.5:
+                        cl.append("s" + rng.choice([b".data", b"a b", b'q"uote', b"\\", b"\x01\xff", b"__DATA,__data"]).hex())
+                    if rng.random() < 0.25:
+                        cl.append("p" + rng.choice([b"part1", b"p q"]).hex())
+                    if rng.random() < 0.6:
+                        cl.append("l%d" % rng.choice([1, 2, 4, 8, 16, 4096, 7, 2**63, 2**64 - 1]))
+                    if cl:
+                        f[1] += ("~" if "~" not in f[1] else "") + "~" + ";".join(cl)
                 ents.append(":".join(f))
             gs = "/".join(ents)
         sigs, fnames = [], set()
@@ -226,6 +237,21 @@ def mutants(rng, text):
         if len(kws) >= 2:
             sw = list(kws); i = rng.randrange(len(sw) - 1); sw[i], sw[i + 1] = sw[i + 1], sw[i]
             out.append(("global-keywords-swapped", with_line(k, pre + b"".join(x + b" " for x in sw) + post)))
+    # the clauses behind the initializer of a global variable: `, section "s"`, `, partition "p"`, `, align N` — each at most once, in this order, to the end of the line
+    if gl:
+        k = rng.choice(gl)
+        m0 = re.search(rb'((?:, (?:section|partition) "[^"]*")*(?:, align \d+)?)$', lines[k])
+        base = lines[k][:m0.start(1)] if m0 else lines[k]
+        cl = re.findall(rb', (?:section|partition) "[^"]*"|, align \d+', m0.group(1)) if m0 else []
+        extra = rng.choice([b', align 16', b', section "other"', b', partition "q"', b', align 0', b', section ""', b', align 18446744073709551616', b', align', b', section 7', b', comdat'])
+        out.append(("global-clause-appended", with_line(k, lines[k] + extra)))
+        out.append(("global-clause-first", with_line(k, base + extra + b"".join(cl))))
+        if cl:
+            i = rng.randrange(len(cl))
+            out.append(("global-clause-doubled", with_line(k, base + b"".join(cl[:i + 1] + [cl[i]] + cl[i + 1:]))))
+            out.append(("global-clause-dropped", with_line(k, base + b"".join(cl[:i] + cl[i + 1:]))))
+            out.append(("global-clauses-reversed", with_line(k, base + b"".join(cl[::-1]))))
+            out.append(("global-clause-comma-dropped", with_line(k, base + b"".join(cl).replace(b", ", b" ", 1))))
     # parameter attributes (`T noundef signext %x`): a list per parameter, between the type and the name
     plists = [(k, m) for k in fn + dc for m in [re.match(rb"(?:define|declare) [^()]*\(([^()]+)\)", lines[k])] if m]
     if plists:
